@@ -106,20 +106,39 @@ impl Oplog {
             Some(info) => {
                 let existing = info.data.expect("Could not get data of existing oplog");
                 // First read and validate both headers stored in the existing oplog
+                // A header slot that fails its checksum was torn while being written: the
+                // other slot then still holds the previous header. Only if no valid header
+                // is left, is the checksum error reported.
+                let mut checksum_error: Option<HypercoreError> = None;
                 let h1_outcome = if let Some(h1) =
                     existing.get(OplogSlot::FirstHeader as usize..OplogSlot::SecondHeader as usize)
                 {
-                    Self::validate_leader(h1)?
+                    match Self::validate_leader(h1) {
+                        Err(err @ HypercoreError::InvalidChecksum { .. }) => {
+                            checksum_error = Some(err);
+                            None
+                        }
+                        outcome => outcome?,
+                    }
                 } else {
                     None
                 };
                 let h2_outcome = if let Some(h2) =
                     existing.get(OplogSlot::SecondHeader as usize..OplogSlot::Entries as usize)
                 {
-                    Self::validate_leader(h2)?
+                    match Self::validate_leader(h2) {
+                        Err(err @ HypercoreError::InvalidChecksum { .. }) => {
+                            checksum_error = Some(err);
+                            None
+                        }
+                        outcome => outcome?,
+                    }
                 } else {
                     None
                 };
+                if let (None, None, Some(err)) = (&h1_outcome, &h2_outcome, checksum_error) {
+                    return Err(err);
+                }
                 // Depending on what is stored, the state needs to be set accordingly.
                 // See `get_next_header_oplog_slot_and_bit_value` for details on header_bits.
                 let mut outcome: OplogOpenOutcome = if let Some(h1_outcome) = h1_outcome {
@@ -172,7 +191,12 @@ impl Oplog {
                     let mut partials: Vec<bool> = Vec::new();
                     let mut entries_byte_length: usize = 0;
                     let header_bit = outcome.oplog.get_current_header_bit();
-                    while let Some(entry_outcome) = Self::validate_leader(entries_buff)? {
+                    // An entry that fails its checksum was torn while being written and
+                    // ends the log like a missing one.
+                    while let Some(entry_outcome) = match Self::validate_leader(entries_buff) {
+                        Err(HypercoreError::InvalidChecksum { .. }) => None,
+                        outcome => outcome?,
+                    } {
                         if entry_outcome.header_bit != header_bit {
                             // Entry belongs to an older header that has since been
                             // flushed: the truncation after that flush did not happen.
